@@ -432,6 +432,10 @@ pub struct MaskCase {
     pub ids: Vec<u32>,
     /// Kernel cpumask widths (in 64-bit words) under which the same set is written and read back.
     pub words: Vec<u32>,
+    /// The machine's `possible` list ends at the highest id of the set instead of spanning the whole
+    /// kernel cpumask (`nr_cpu_ids` is often larger than the number of possible processors).
+    #[serde(default)]
+    pub tight_possible: bool,
 }
 
 #[derive(Clone, Debug, Serialize, Deserialize)]
@@ -560,7 +564,14 @@ impl Scenario for CodecScenario {
                     _ => (rng.below(u64::from(lo)) as u32) * 64 + *rng.pick(&[0_u32, 1, 31, 32, 62, 63]),
                 });
             }
-            MaskCase { ids: sorted_dedup(ids), words: vec![w1, w2] }
+            let tight_possible = rng.chance(1, 3);
+            if tight_possible && lo >= 2 && rng.bool() {
+                // Highest possible id exactly on a word boundary: an id space of 64k+1 processors.
+                let top = 64 * rng.range(1, u64::from(lo) - 1) as u32;
+                ids.retain(|i| *i < top);
+                ids.push(top);
+            }
+            MaskCase { ids: sorted_dedup(ids), words: vec![w1, w2], tight_possible }
         });
         Self { sets, texts, garbage, mask }
     }
@@ -664,7 +675,7 @@ impl Scenario for CodecScenario {
         if let Some(mc) = &self.mask {
             for ids in simkit::shrink::remove_chunks(&mc.ids) {
                 if !ids.is_empty() {
-                    out.push(Self { mask: Some(MaskCase { ids, words: mc.words.clone() }), ..self.clone() });
+                    out.push(Self { mask: Some(MaskCase { ids, words: mc.words.clone(), tight_possible: mc.tight_possible }), ..self.clone() });
                 }
             }
         }
@@ -694,7 +705,8 @@ impl CodecScenario {
                 continue;
             }
             let cpus: Vec<(u32, u32)> = ids.iter().map(|i| (*i, 0)).collect();
-            let machine = simple_machine(bits, &cpus, &ids, 0);
+            let possible_bits = if mc.tight_possible { ids.iter().copied().max().unwrap_or(0) + 1 } else { bits };
+            let machine = simple_machine(possible_bits, &cpus, &ids, 0);
             let fs = Arc::new(SimFs::new(machine, FaultPlan::default(), false));
             let kernel = Arc::new(SimKernel::new((w * 8) as usize, ids.clone(), false, 0));
             let k2 = kernel.clone();
